@@ -19,12 +19,12 @@ P = "NakenVerif.Riscv."
 C01_THEOREMS = [P + n for n in (
     "Arch.decode_encode", "Arch.encode_decode", "rv32i_encode_sound", "rv32i_encode_sound_defined", "rv32i_encode_len",
     "rv32i_fixpoint_structured", "table_spec_rows", "table_spec_names", "table_rows_known", "table_rt_rows",
-    "fence_bare_counterexample", "fence_flags_fault_counterexample")]
+    "rv32i_fence_sound", "fence_encode")]
 C06_THEOREMS = [P + n for n in (
     "rv32i_encode_rejects_unfit", "rv32i_encode_injective_mod_field", "rv32i_encode_injective_imm12",
     "rv32i_encode_exact_field", "table_spec_rows")]
 C07_THEOREMS = [P + n for n in (
-    "rv32i_decode_encode_decode", "table_rt_rows", "table_fence_rows", "table_fence_type", "fence_flags_fault",
+    "rv32i_decode_encode_decode", "table_rt_rows", "table_fence_rows", "table_fence_type", "fence_encode", "toStmt_fence_iorw", "toStmt_fence_empty",
     "branch_zero_alias_counterexample")]
 C08_THEOREMS = [P + n for n in (
     "rv32i_len_bounds", "rv32i_decode_local", "rv32i_text_fits", "rv32i_walk_tiles")]
